@@ -131,8 +131,13 @@ class LenaSplit(object):
         for seq in self._seqs:
             if hasattr(seq, "_set_context"):
                 # can raise LenaKeyError if some context
-                # formatting keys are missing.
-                seq._set_context(deepcopy(context))
+                # formatting keys are missing
+                # (in a nested sequence of this one).
+                try:
+                    seq._set_context(deepcopy(context))
+                except exceptions.LenaKeyError:
+                    # the other sequences must receive their context
+                    pass
         # we don't track whether all contexts could be set here,
         # because otherwise an exception will raise in _get_context.
 
